@@ -1,8 +1,81 @@
-import Pun.Model.Proto
+import Pun.Model.EnvImp
+import Pun.Drv.PBoxCommon
+/-!
+protocol of C11 (after the case id):
+
+* `envelope <steps> <perms> <opnd>…`, `imposition <steps> <perms> <opnd>…`
+  operand tokens: `I:lo:hi` | `N:c` | `B:[left]:[right]` | `X` (non-finite number) | `O` (other object);
+  `<perms>` is `-` or `i.j.k;…` (listing orders to evaluate besides the given one).
+  reply: results separated by ` | ` — first the given order, then one per listed order, `=` when it
+  equals the first.  A result is `ivl lo hi` | `ok [left] [right]` | `err Kind`.
+* `contains [left] [right] <item>`  (`Pbox.__contains__`), item `N:c` | `J:lo:hi` | `A`
+* `icontains lo hi <item>`          (`Interval.__contains__`), item `N:c` | `J:lo:hi`
+* everything of `PBoxCommon` (`env`, `imp`, `mk`, …)
+-/
 namespace Pun.Drv.C11
-open Pun
+open Pun Pun.PBox Pun.EnvImp
+
+def parseOpnd (s : String) : Option Opnd :=
+  match s.splitOn ":" with
+  | ["I", a, b] => do some (.ivl (← parseRat a) (← parseRat b))
+  | ["N", c] => do some (.num (← parseRat c))
+  | ["B", l, r] => do some (.box ⟨← parseList l, ← parseList r⟩)
+  | ["X"] => some .nonfinite
+  | ["O"] => some .other
+  | _ => none
+
+def parseItem (s : String) : Option Item :=
+  match s.splitOn ":" with
+  | ["N", c] => do some (.num (← parseRat c))
+  | ["J", a, b] => do some (.obj (← parseRat a) (← parseRat b))
+  | ["A"] => some .noattr
+  | _ => none
+
+def parsePerm (s : String) : Option (List Nat) := (s.splitOn ".").mapM String.toNat?
+
+def parsePerms (s : String) : Option (List (List Nat)) :=
+  if s == "-" then some [] else (s.splitOn ";").mapM parsePerm
+
+/-- reorder `l` by the index list (every index must be in range) -/
+def pick {α : Type} (l : List α) (idx : List Nat) : Option (List α) := idx.mapM (fun i => l[i]?)
+
+def showRes : Except Err Res → String
+  | .ok (.ivl a b) => s!"ivl {showRat a} {showRat b}"
+  | .ok (.pb p) => s!"ok {showList p.left} {showList p.right}"
+  | .error e => s!"err {e}"
+
+def showBool : Except Err Bool → String
+  | .ok true => "ok true"
+  | .ok false => "ok false"
+  | .error e => s!"err {e}"
+
+def runOrders (f : List Opnd → String) (ops : List Opnd) (perms : List (List Nat)) : Option String := do
+  let r0 := f ops
+  let rest ← perms.mapM (fun idx => do
+    let l ← pick ops idx
+    let r := f l
+    some (if r == r0 then "=" else r))
+  some (" | ".intercalate (r0 :: rest))
 
 def handle : List String → String
-  | _ => "bad-op"
+  | "envelope" :: steps :: perms :: ops =>
+    match parseNat steps, parsePerms perms, ops.mapM parseOpnd with
+    | some n, some ps, some l => (runOrders (fun l => showRes (envelope n l)) l ps).getD "bad-op"
+    | _, _, _ => "bad-op"
+  | "imposition" :: steps :: perms :: ops =>
+    match parseNat steps, parsePerms perms, ops.mapM parseOpnd with
+    | some n, some ps, some l =>
+      (runOrders (fun l => PBoxCommon.showPB (imposition n l)) l ps).getD "bad-op"
+    | _, _, _ => "bad-op"
+  | ["contains", l, r, item] =>
+    match PBoxCommon.parsePB l r, parseItem item with
+    | some p, some it => showBool (containsP p it)
+    | _, _ => "bad-op"
+  | ["icontains", lo, hi, item] =>
+    match parseRat lo, parseRat hi, parseItem item with
+    | some a, some b, some (.num c) => showBool (.ok (containsINum a b c))
+    | some a, some b, some (.obj l h) => showBool (.ok (containsIIvl a b l h))
+    | _, _, _ => "bad-op"
+  | toks => PBoxCommon.handle toks
 
 end Pun.Drv.C11
